@@ -391,6 +391,44 @@ def m_pack(interp, fmt, *vals):
     return SBytes(total, fn, regions=regs)
 
 
+@model(_struct.pack_into)
+def m_pack_into(interp, fmt, buf, offset, *vals):
+    """struct.pack_into on a mutable byte buffer: overwrites [offset, offset+size) in place"""
+    c = ctx()
+    if not isinstance(buf, SBytes):
+        if contains_sym((offset, vals)):
+            raise Unsupported("struct.pack_into a native buffer with symbolic arguments")
+        try:
+            return _struct.pack_into(fmt, buf, offset, *vals)
+        except Exception as e:
+            raise RaiseSig(e)
+    if not buf.mutable:
+        raise RaiseSig(TypeError("argument must be read-write bytes-like object"))
+    packed = as_sbytes(m_pack(interp, fmt, *vals))
+    n = packed.len
+    if not interp.truth(And(offset >= 0, offset + n <= buf.len)):
+        raise RaiseSig(_struct.error("pack_into requires a buffer of at least N bytes"))
+    old_fn = buf.fn
+    pf = packed.fn
+    def new_fn(i):
+        cond = And(i >= offset, i < offset + n)
+        if isinstance(cond, bool):
+            return pf(i - offset) if cond else old_fn(i)
+        return ite(cond, pf(smin(smax(i - offset, 0), n - 1)), old_fn(i))
+    buf.fn = new_fn
+    kept = []
+    for (st, ln, kd, pl) in buf.regions:
+        disjoint = core.Or(st + ln <= offset, offset + n <= st)
+        if disjoint is True or (not isinstance(disjoint, bool) and not c._feasible(core.Z.Not(core._b(disjoint)))):
+            kept.append((st, ln, kd, pl))          # provenance survives only where the write provably does not reach
+    buf.regions = kept + [(offset + st, ln, kd, pl) for (st, ln, kd, pl) in packed.regions]
+    return None
+
+
+def zero_bytearray(n):
+    return SBytes(n, lambda i: 0, mutable=True)
+
+
 def read_uint(sb, off, n):
     """little-endian unsigned integer at sb[off:off+n]; uses the provenance of the bytes when the range
     is exactly a packed integer or an element of an array written by tobytes (then no byte arithmetic is
